@@ -148,6 +148,10 @@ def run(pid, tier, seed, replay=None):
         nocover = sorted(n for n, c in gen.cover.items() if c["has"] and not c["covers"])
         out.extra["code_plan"] = {"programs_with_plan": len(codeplan), "executed_by_the_model": sum(1 for c in gen.cover.values() if c["covers"]),
                                   "shape_drift": nocover, "inputs_on_which_the_code_plan_fails": len(gen.cpfail)}
+        if not gen.cpfail and not replay:
+            ctl = semlib.codeplan_negative_controls(sel, codeplan, work)
+            if ctl:
+                out.extra["code_plan"]["negative_controls"] = ctl
     out.add_tlc(gen, "SemGen (all input databases within the bound; theorems of the semantics" +
                 (" and SemiNaive = LeastModel" if gen.seminaive_checked else "") +
                 (" and LeastModel(Core(P)) = LeastModel(P) (AscentDesugar.tla)" if pid in ("C07", "C08") or tier == "thorough" else "") + " on each)")
